@@ -344,6 +344,20 @@ def runtime_checks():
                 bad.append(dict(case='batch in which every row is the same special point', field=name, violated='vector_laplacian', want=want))
         except Exception as e:
             bad.append(dict(case='special-point batch', field=name, error=f'{type(e).__name__}: {e}'))
+    # a field tensor that is modified in place between two queries: the second answer is about the field as it is then
+    try:
+        x, y, z = col(0.3, -1.2, 2.0), col(1.1, 0.4, -0.7), col(-0.5, 0.9, 1.6)
+        u = torch.sin(x * y) + z ** 2 * x
+        g1 = [g.detach().clone() for g in ops.grad(u, x, y, z)]
+        l1 = ops.laplacian(u, x, y, z).detach().clone()
+        u.mul_(3.0)
+        g2 = ops.grad(u, x, y, z)
+        l2 = ops.laplacian(u, x, y, z)
+        if any(not torch.allclose(b.detach(), 3 * a, rtol=1e-12, atol=1e-12) for a, b in zip(g1, g2)) or not torch.allclose(l2.detach(), 3 * l1, rtol=1e-12, atol=1e-12):
+            bad.append(dict(case='field tensor scaled in place (u.mul_(3)) between two queries', violated='grad / laplacian still describe the old field',
+                            grad_before=[g.reshape(-1).tolist() for g in g1], grad_after=[g.detach().reshape(-1).tolist() for g in g2]))
+    except Exception as e:
+        bad.append(dict(case='field tensor modified in place between two queries', error=f'{type(e).__name__}: {e}'))
     # grad mode: same values inside torch.no_grad()
     try:
         x, y, z = col(0.3, -1.2, 2.0), col(1.1, 0.4, -0.7), col(-0.5, 0.9, 1.6)
